@@ -267,9 +267,10 @@ PROPS = {
         "quick": [
             {"harness": "H_C13_lock2", "pkg": "fs"},
             {"harness": "H_C13_lock3", "pkg": "fs"},
+            {"harness": "H_C13_open", "scale": SC},
         ],
-        "covers": {"quick": ["C13.lock.done", "C13.lock.an-opener-acquired", "C13.lock.all-openers-rejected"]},
-        "bounds": {"quick": "fs.OS lock file over the kernel model: 1 releasing owner (unlink, close) and 2 or 3 openers (stat, open, flock), every interleaving of their system calls (scheduling points between the calls)"},
+        "covers": {"quick": ["C13.lock.done", "C13.lock.an-opener-acquired", "C13.lock.all-openers-rejected", "C13.open.done", "C13.clean-end", "C13.unclean-end", "C13.open-failed-with-io-error-in-recovery"]},
+        "bounds": {"quick": "fs.OS lock file over the kernel model: 1 releasing owner (unlink, close) and 2 or 3 openers (stat, open, flock), every interleaving of their system calls (scheduling points between the calls); DB level on fs.Mem: 3 sessions each ending by clean Close, process death, or an Open failing with an injected I/O error at a symbolic write of the recovery; recovery iff the last session did not complete Close (observed through the index-file renames), competing Open fails with the locked error and leaves names and sizes unchanged"},
         "assumptions": COMMON_ASSUME + ["kernel model of stat/open(O_CREAT)/flock(LOCK_EX|LOCK_NB)/unlink/close (hand-written from the POSIX/Linux contract; counterexamples are replayed on the real kernel through the verif yield hooks)"],
         "outside": "NFS and other flock semantics, Windows/Plan 9 lock files, more than 3 openers",
     },
